@@ -100,9 +100,8 @@ Print Assumptions C10_create_capacity.
 
 (* create: usage = sum and usage <= capacity (and C12) after every fault position, on the scenario family *)
 Theorem C10_create_scenarios : forall w o, (w = busy3 \/ w = base3) -> In o create_ops ->
-  forall k, is_send_at (script_of o) (prep w o) k = false ->
-  c12_check (prep w o) o (fst (final (script_of o) (prep w o) (Some k))) = true.
-Proof. exact create_scenarios_all_k. Qed.
+  forall k, c12_check (prep w o) o (fst (final (script_of o) (prep w o) k)) = true.
+Proof. exact create_scenarios_every_k. Qed.
 Print Assumptions C10_create_scenarios.
 
 (* the full statement is false for replace *)
